@@ -31,6 +31,7 @@ def worktree(name):
     if os.path.exists(d):
         sh(f"git -C /repo worktree remove --force {d}")
         shutil.rmtree(d, ignore_errors=True)
+    sh("git -C /repo worktree prune")
     rc, out = sh(f"git -C /repo worktree add -q --detach {d} HEAD")
     if rc:
         raise SystemExit(out)
@@ -137,6 +138,30 @@ def cmd_detect(name, tier, props):
     save(name, meta)
 
 
+def cmd_table():
+    """Markdown table of all seeded defects and what detected them (for DESIGN.md 9.4)."""
+    rows = []
+    for name in sorted(os.listdir(SEEDED)):
+        mp = os.path.join(SEEDED, name, "meta.json")
+        if not os.path.exists(mp):
+            continue
+        m = json.load(open(mp))
+        conf = m.get("confirmed", {})
+        ok = all(conf.get(k) for k in ("patch_applies", "suite_passes_with_patch", "demo_fails_with_patch", "demo_passes_without_patch"))
+        det = m.get("detection", {})
+        cells = []
+        for key, d in sorted(det.items()):
+            hs = d.get("failing_harnesses", [])
+            verdict = {1: "VIOLATION", 0: "missed", 2: "inconclusive"}.get(d.get("exit"), str(d.get("exit")))
+            cells.append(f"{key}: **{verdict}** ({len(hs)} harnesses, e.g. `{hs[0]}`)" if hs else f"{key}: **{verdict}**")
+        files = ", ".join(m.get("files_changed", []) if isinstance(m.get("files_changed"), list) else [str(m.get("files_changed"))])
+        need = (m.get("needs_to_manifest") or "")[:160].replace("|", "/").replace("\n", " ")
+        rows.append(f"| {name} | {files} | {need} | {'yes' if ok else 'NO'} | {'; '.join(cells) or '-'} |")
+    print("| seed | files | needs, to manifest | confirmed | detected by (property:tier) |")
+    print("|---|---|---|---|---|")
+    print("\n".join(rows))
+
+
 def main():
     a = sys.argv[1:]
     if not a:
@@ -146,6 +171,8 @@ def main():
         return cmd_import(a[1], a[2], a[3])
     if a[0] == "confirm":
         return cmd_confirm(a[1])
+    if a[0] == "table":
+        return cmd_table()
     if a[0] == "detect":
         tier = "quick"
         props = None
